@@ -10,6 +10,7 @@ import (
 	"fmt"
 	"os"
 	"runtime"
+	"runtime/debug"
 	"strconv"
 	"strings"
 	"sync"
@@ -167,6 +168,94 @@ func c11Worker(w *W) {
 					map[string]any{"fastCaller": fast, "goroutines": G})
 			} else if c11locSeen.Load() > 0 {
 				w.Distinct("concurrent|" + mode + "|" + w.Spec.Flavour)
+			}
+		}
+	}
+	// history phase: with caller lookup ON an asynchronous logger overflows and discards thousands of located events (their
+	// objects go back to the pool), the configuration is destroyed, and the next one has caller lookup OFF: every record
+	// must then carry an empty location - nothing a recycled event remembers may show
+	for _, fast := range []string{"false", "true"} {
+		for _, pol := range []string{"Discard", "DiscardOldest"} {
+			cfg := map[string]string{"appender.g.type": "VGate", "logger.lg.type": "AsyncLogger", "logger.lg.tags": "c11tag", "logger.lg.appenderRef.ref": "g",
+				"logger.lg.bufferSize": "100", "logger.lg.bufferFullPolicy": pol, "enableCaller": "true", "fastCaller": fast}
+			if err := log.Refresh(cfg); err != nil {
+				w.Violate("C11:refresh-failed", "Refresh failed: "+err.Error(), cfg)
+				log.Destroy()
+				continue
+			}
+			// a garbage collection empties the pools; this worker allocates enough to collect every millisecond, which would hide
+			// anything a recycled event carries, so the collector is paused for the few milliseconds of this history
+			gcOld := debug.SetGCPercent(-1)
+			g := gateFor("g")
+			g.Open.Store(false)
+			// from 16 goroutines, so that the overflow (and whatever it leaves in per-processor pools) happens on many processors
+			var fw sync.WaitGroup
+			for fg := 0; fg < 16; fg++ {
+				fw.Add(1)
+				go func(fg int) {
+					defer fw.Done()
+					for k := 0; k < 200; k++ {
+						if k%2 == 0 {
+							log.Infof(ctx, tag, "id-c11of-%d overflow", fg*1000+k)
+						} else {
+							log.Warn(ctx, tag, log.Msg("overflow"), log.Int("k", k))
+						}
+					}
+				}(fg)
+			}
+			fw.Wait()
+			g.Open.Store(true)
+			for i := 0; i < 8; i++ {
+				g.Gate <- struct{}{}
+			}
+			log.Destroy()
+			for len(g.Entered) > 0 {
+				<-g.Entered
+			}
+			for len(g.Gate) > 0 {
+				<-g.Gate
+			}
+			rec.take()
+			cfg2 := map[string]string{"appender.rec.type": "VRec", "logger.lg.type": "Logger", "logger.lg.tags": "c11tag", "logger.lg.appenderRef.ref": "rec", "enableCaller": "false", "fastCaller": fast}
+			if err := log.Refresh(cfg2); err != nil {
+				w.Violate("C11:refresh-failed", "Refresh failed: "+err.Error(), cfg2)
+				log.Destroy()
+				debug.SetGCPercent(gcOld)
+				continue
+			}
+			for fg := 0; fg < 48; fg++ {
+				fw.Add(1)
+				go func(fg int) {
+					defer fw.Done()
+					for k := 0; k < 25; k++ {
+						log.Errorf(ctx, tag, "id-c11off-%d lookup disabled", fg*1000+k)
+						if k%5 == 0 {
+							runtime.Gosched()
+						}
+					}
+				}(fg)
+			}
+			fw.Wait()
+			log.Destroy()
+			debug.SetGCPercent(gcOld)
+			mode := map[string]string{"true": "fast", "false": "default"}[fast]
+			stale := 0
+			first := ""
+			items := rec.take()
+			for _, it := range items {
+				if it.File != "" || it.Line != 0 {
+					if stale++; first == "" {
+						first = fmt.Sprintf("%s:%d", it.File, it.Line)
+					}
+				}
+			}
+			w.Eval(int64(len(items)))
+			w.Count("records_checked_after_an_overflowing_cycle", int64(len(items)))
+			if stale > 0 {
+				w.Violate("C11:location-when-disabled:"+mode+":after-overflow", fmt.Sprintf("caller lookup disabled, yet %d of %d records carry a location (first: %s); the previous configuration (lookup enabled, async logger, policy %s) had discarded about 3000 located events", stale, len(items), first, pol),
+					map[string]any{"fastCaller": fast, "policy": pol})
+			} else if len(items) > 0 {
+				w.Distinct("off-after-overflow|" + mode + "|" + pol + "|" + w.Spec.Flavour)
 			}
 		}
 	}
